@@ -1719,16 +1719,13 @@ Lemma read_trial_decomp m t :
 Proof.
   intros Hp Hk. destruct t as [lg td pr mk sn cs nr cu dc bs fn pa]; simpl in *. subst pr.
   destruct m as [i k|i k|i k]; simpl in *.
-  - reflexivity.
+  - unfold read_trial, t_emit, t_write, status_of; simpl. reflexivity.
   - destruct (firstn_skipn_all td k Hk) as (Hf & Hsk).
     unfold read_trial, t_emit, t_finish, t_write, status_of; simpl. rewrite Hf, Hsk. simpl.
     rewrite app_nil_r. reflexivity.
   - unfold read_trial, t_emit, t_fail, t_write, status_of; simpl.
-    rewrite app_nil_r. reflexivity.
+    rewrite !app_nil_r. reflexivity.
 Qed.
-
-Lemma fetch2_good ids mid : forall e, In e (fetch2 ids mid) -> True.
-Proof. auto. Qed.
 
 (* non-vacuity of the completion theorems: the worker finishes after a poll; the next covering poll *)
 Lemma completed_example :
